@@ -239,6 +239,9 @@ func checkC01(c *Ctx, w *World) {
 
 	// "configured" is stated over the method table: every configured method must be in it, with its own entry's section
 	importPremises(c, w, "C17", checkC17, []string{"C17.methods"}, "C01.config")
+	// "its channel is READY / not READY" is read from the state record: it must follow the reports of the slot's connection,
+	// also after a completed refresh (the replacement must stop being treated as a replacement in progress)
+	importPremises(c, w, "C04", checkC04, []string{"C04.pair", "C04.refresh-complete"}, "C01.states")
 
 	// ---- C01.extract (Pick)
 	pAtoms := []atomDef{
